@@ -296,7 +296,8 @@ def _task_handles(task):
         data = b"".join(recs)
         if cut:
             data = data[:-cut]
-        for opener in ("w+b", "tempfile", "w+b-after-seek0", "r+b-append", "unbuffered-write-then-rb"):
+        for opener in ("w+b", "tempfile", "w+b-after-seek0", "r+b-append", "unbuffered-write-then-rb", "generator-created-before-the-writes",
+                       "generator-created-then-caller-reads-4"):
             for r in (None, 4096):
                 path = os.path.join(work, f"c10h_{os.getpid()}.bin")
                 try:
@@ -315,6 +316,10 @@ def _task_handles(task):
                         else:
                             f = open(path, "w+b")
                         with f:
+                            pre_gen = None
+                            if opener.startswith("generator-created"):
+                                # a generator object does nothing until it is first advanced: the source is whatever the file holds THEN
+                                pre_gen = ccsds_generator(f, buffer_read_size_bytes=r, skip_header_bytes=k)
                             if opener != "unbuffered-write-then-rb":
                                 # one write() per record, as a recorder does; the last write() is the (possibly cut) tail
                                 off = len(recs[0]) if opener == "r+b-append" else 0
@@ -326,7 +331,10 @@ def _task_handles(task):
                                     pos += len(rec)
                                 if opener == "w+b-after-seek0":
                                     f.seek(0)
-                            items, end = pull(ccsds_generator(f, buffer_read_size_bytes=r, skip_header_bytes=k), horizon=n + 3)
+                                if opener == "generator-created-then-caller-reads-4":
+                                    f.seek(0)
+                                    f.read(4)
+                            items, end = pull(pre_gen if pre_gen is not None else ccsds_generator(f, buffer_read_size_bytes=r, skip_header_bytes=k), horizon=n + 3)
                     got = [bytes(i) for i in items]
                     why = _judge(got, end if isinstance(end, str) else end[0], data, k)
                 except CaseTimeout:
@@ -398,7 +406,7 @@ def run(ctx):
         "programs": tally.programs,
         "exhaustive": True,
         "bound": (f"every sequence of 1..{max_len} palette packets x prefix lengths {ks} cut at EVERY byte offset, for bytes, "
-                  "BytesIO with every read size (and with show_progress=True), a gzip file object and a BufferedReader over a 3-bytes-per-read raw stream (read sizes None, 7), read/write file handles as a producer leaves them (w+b, TemporaryFile, r+b appended; 3..400 records written one write() each and not flushed; whole and cut by 1 or 9 bytes), and a scripted socket where the peer may close at every recv() choice point (also with show_progress=True on the streams of <= 2 packets) "
+                  "BytesIO with every read size (and with show_progress=True), a gzip file object and a BufferedReader over a 3-bytes-per-read raw stream (read sizes None, 7), read/write file handles as a producer leaves them (w+b, TemporaryFile, r+b appended, the generator object created before the writes / before the caller reads from the handle; 3..400 records written one write() each and not flushed; whole and cut by 1 or 9 bytes), and a scripted socket where the peer may close at every recv() choice point (also with show_progress=True on the streams of <= 2 packets) "
                   "under every fragmentation; all byte strings of length <= 2; all strings of length <= "
                   f"{8 if ctx.quick else 9} over {{00,01,FF}}; both ccsds_generator and packet_generator(header-only definition)"),
         "rule": ("one evaluation = one complete execution of a generator over one (stream, cut point / close point, source, read size, "
